@@ -377,6 +377,12 @@ def h_list(I, st, fv, args, kwargs, ctx):
 
 
 def h_dict(I, st, fv, args, kwargs, ctx):
+    if "$symbolic_kwargs" in kwargs:
+        # dict(a, **b) with a symbolic b: a fresh dict about which nothing is assumed (sound
+        # over-approximation of the union)
+        r = I.alloc_dict(st, keys=I.U.fresh_seq("unionkeys"),
+                         vals=z3.Const("unionvals!%d" % I.new_oid(), z3.ArraySort(V, V)))
+        return [(st, r)]
     r = I.alloc_dict(st)
     if args:
         x = args[0]
